@@ -63,7 +63,7 @@ var xlateTargets = map[string][]string{
 		"buffer.Buffered", "buffer.addIndex", "buffer.Discard", "buffer.WriteByte", "decoderDict.WriteByte",
 		"encoderDict.DictLen", "encoderDict.Available", "encoderDict.Buffered",
 		"hashTableExponent", "hashTable.buffered", "hashTable.addIndex", "hashTable.putDelta", "hashTable.putEntry", "hashTable.getMatches",
-		"binTree.max", "binTree.min", "binTree.distance",
+		"binTree.max", "binTree.min", "binTree.distance", "binTree.pred", "binTree.succ",
 		"uint32LE", "uint64LE", "header.unmarshalBinary", "validDictCap", "ValidHeader",
 	},
 	".": {"padLen", "readUvarint", "readSizeInBlockHeader", "readRecord", "verifyFlags"},
